@@ -16,6 +16,7 @@ use crate::rng::Rng;
 
 pub const EINTR: i32 = 4;
 pub const EIO: i32 = 5;
+pub const EAGAIN: i32 = 11;
 pub const ENOSPC: i32 = 28;
 pub const EPIPE: i32 = 32;
 
@@ -128,6 +129,11 @@ pub struct Scenario {
     /// they are not part of the tool's input
     #[serde(default)]
     pub stdin_consumed: Vec<String>,
+    /// only this many `pthread_create` calls of the process succeed, later ones fail with EAGAIN
+    /// (None = no limit): a tool that spreads its work over threads must give the same output, or
+    /// fail, when the system refuses to start them
+    #[serde(default)]
+    pub threads_allowed: Option<u32>,
 }
 
 #[derive(Clone, Debug, Serialize, Deserialize)]
@@ -146,6 +152,8 @@ pub struct Counters {
     pub f_eintr_read: u64,
     pub f_eintr_write: u64,
     pub f_eio_read: u64,
+    pub f_eagain_read: u64,
+    pub f_thread_refused: u64,
     pub f_enospc_write: u64,
     pub f_epipe_write: u64,
     pub f_read_split_inside_line: u64,
@@ -179,7 +187,7 @@ impl Counters {
         macro_rules! a { ($($f:ident),*) => { $( self.$f += o.$f; )* } }
         a!(
             processes, syscalls, f_short_read, f_short_write, f_eintr_read, f_eintr_write,
-            f_eio_read, f_enospc_write, f_epipe_write, f_read_split_inside_line,
+            f_eio_read, f_eagain_read, f_thread_refused, f_enospc_write, f_epipe_write, f_read_split_inside_line,
             f_read_split_inside_char, f_write_split_inside_line, f_write_split_inside_escape,
             p_line_longer_than_buffer, p_pattern_file_trickled, p_two_files_no_filename,
             p_colored_runs, p_highlight_checked_lines, p_multibyte_highlight, p_dev_runs,
@@ -795,7 +803,11 @@ pub fn execute(sc: &Scenario, bins: &Bins, dir: &Path) -> RunResult {
             w("pats.txt", &pattern_file_bytes(sc));
         }
     }
-    w("sched.txt", sc.sched.render().as_bytes());
+    let mut sched_txt = sc.sched.render();
+    if let Some(k) = sc.threads_allowed {
+        sched_txt += &format!("t n {k}\n");
+    }
+    w("sched.txt", sched_txt.as_bytes());
     let bin = match sc.profile {
         Profile::Dev => &bins.dev,
         Profile::Release => &bins.release,
@@ -939,6 +951,8 @@ pub fn run(sc: &Scenario, bins: &Bins, dir: &Path, known_crlf: bool) -> Outcome 
     }
     let (calls, opens) = parse_log(&r.log);
     c.syscalls = calls.len() as u64;
+    let threads_refused = r.log.lines().filter(|l| l.starts_with("t ") && l.ends_with(" refused")).count() as u64;
+    c.f_thread_refused += threads_refused;
     let mut h = DefaultHasher::new();
     r.log.hash(&mut h);
     let mut trace_hash = h.finish();
@@ -1051,7 +1065,11 @@ pub fn run(sc: &Scenario, bins: &Bins, dir: &Path, known_crlf: bool) -> Outcome 
             match call.act.as_str() {
                 "e4" => c.f_eintr_read += 1,
                 a if a.starts_with('e') => {
-                    c.f_eio_read += 1;
+                    if a == "e11" {
+                        c.f_eagain_read += 1;
+                    } else {
+                        c.f_eio_read += 1;
+                    }
                     if name == "pats.txt" {
                         pattern_fault = true;
                     } else if name == "stdin.txt" {
@@ -1106,7 +1124,7 @@ pub fn run(sc: &Scenario, bins: &Bins, dir: &Path, known_crlf: bool) -> Outcome 
     let stderr = String::from_utf8_lossy(&r.stderr);
     let violation = if r.timed_out {
         Some(Violation { class: "no-return".into(), detail: format!("daacfind did not exit within {} s (repeatedly)", PROCESS_TIMEOUT_S.with(|t| t.get())) })
-    } else if (r.status == Some(101) || stderr.contains("panicked at")) && !(write_fault || read_fault_file.is_some() || pattern_fault) {
+    } else if (r.status == Some(101) || stderr.contains("panicked at")) && !(write_fault || read_fault_file.is_some() || pattern_fault || threads_refused > 0) {
         let first = stderr.lines().find(|l| !l.trim().is_empty()).unwrap_or("").to_string();
         let msg = stderr.lines().skip_while(|l| !l.contains("panicked at")).nth(1).unwrap_or("").to_string();
         let startup = stderr.contains("debug_asserts") || stderr.contains("clap");
@@ -1117,6 +1135,9 @@ pub fn run(sc: &Scenario, bins: &Bins, dir: &Path, known_crlf: bool) -> Outcome 
     } else if let Some(sig) = r.signal {
         Some(Violation { class: "crash-signal".into(), detail: format!("daacfind was killed by signal {sig}") })
     } else {
+        // a tool that could not start a thread may give up (non-zero exit status, output a prefix
+        // of the right one); if it reports success its output has to be complete
+        let write_fault = write_fault || (threads_refused > 0 && r.status != Some(0));
         let hard_fired = write_fault || read_fault_file.is_some() || pattern_fault;
         let res = if hard_fired {
             judge_hard(sc, &r, write_fault, read_fault_file, pattern_fault, false)
@@ -1328,7 +1349,7 @@ pub fn generate(seed: u64, cfg: &GenCfg) -> Scenario {
             // walk many of the automaton's paths
             rng.range(30, 90)
         } else {
-            *rng.pick(&[0usize, 1, 2, 5, 5, 10, 20, 40])
+            *rng.pick(&[0usize, 1, 2, 5, 5, 10, 20, 40, 0, 1, 2, 5, 5, 10, 20, 150, 1, 2, 5, 10, 20, 40, 5, 400])
         };
         (0..n)
             .map(|_| {
@@ -1453,7 +1474,11 @@ pub fn generate(seed: u64, cfg: &GenCfg) -> Scenario {
         nofile_limit,
         pipe_inputs: false,
         stdin_consumed: vec![],
+        threads_allowed: None,
     };
+    if !cfg.small && rng.chance(1, 8) {
+        sc.threads_allowed = Some(*rng.pick(&[0u32, 0, 1, 2, 3]));
+    }
     // inputs that are not regular files (not with the same name twice: a FIFO is served once)
     let want_pipes = !cfg.small && rng.chance(1, 7) && sc.files.len() <= 8;
     if want_pipes && !(dup_file && mode != Mode::Hard) {
@@ -1519,7 +1544,8 @@ pub fn gen_sched(rng: &mut Rng, mode: Mode) -> Sched {
     if mode == Mode::Hard {
         if rng.chance(1, 2) {
             let i = rng.below(s.reads.len().min(12));
-            s.reads[i] = Act::Err(EIO);
+            // EIO: the medium; EAGAIN: a descriptor inherited in non-blocking mode whose writer is slow
+            s.reads[i] = Act::Err(*rng.pick(&[EIO, EIO, EAGAIN]));
         } else {
             let i = rng.below(s.writes.len().min(12));
             s.writes[i] = Act::Err(*rng.pick(&[ENOSPC, EPIPE]));
@@ -1727,11 +1753,12 @@ pub fn minimise(sc: &Scenario, class: &str, bins: &Bins, dir: &Path, known_crlf:
             shrink(&mut cur, &|c: &mut Scenario| &mut c.stdin_lines[i]);
         }
         // flags
-        for k in 0..9 {
+        for k in 0..10 {
             let mut c = cur.clone();
             match k {
                 7 => c.pipe_inputs = false,
                 8 => c.stdin_consumed.clear(),
+                9 => c.threads_allowed = None,
                 5 => {
                     c.pat_file_layout = 0;
                     c.flag_style = 0;
